@@ -676,6 +676,7 @@ callback_chunkedheader(void * cookie, int status)
 	size_t buflen;
 	size_t eolpos;
 	size_t clen;
+	char line[MAXCHLEN + 1];
 
 	/* Did we fail?  (EOF while reading a chunk header is a failure.) */
 	if (status)
@@ -689,19 +690,20 @@ callback_chunkedheader(void * cookie, int status)
 
 	/* If we found one, handle the line. */
 	if (eolpos != buflen) {
+		/* A chunk header line should not be this long. */
+		if (eolpos > MAXCHLEN)
+			return (fail(H));
+
 		/*
 		 * Parse the chunk length; it's always in base 16, and allow
-		 * trailing characters to accommodate the EOL.  ${buf} is not
-		 * NUL-terminated but it does contain an EOL, so the cast is
-		 * safe.
+		 * trailing characters to accommodate chunk extensions.  We
+		 * parse a NUL-terminated copy of the line, since strtoumax
+		 * would otherwise skip over the EOL as leading whitespace.
 		 */
-		if (PARSENUM_EX(&clen, (const char *)buf, 0, SIZE_MAX, 16, 1)) {
-			/* Print ${buf} carefully (it's not NUL-terminated). */
-			if (eolpos <= INT_MAX)
-				warnp("parsenum failed on %.*s", (int)eolpos,
-				    buf);
-			else
-				warnp("parsenum failed on %.*s", INT_MAX, buf);
+		memcpy(line, buf, eolpos);
+		line[eolpos] = '\0';
+		if (PARSENUM_EX(&clen, line, 0, SIZE_MAX, 16, 1)) {
+			warnp("parsenum failed on %s", line);
 			return (fail(H));
 		}
 
